@@ -15,6 +15,7 @@
 import RaftVerif.Properties.C06
 import RaftVerif.Properties.C08
 import RaftVerif.Proofs.LeaderSpecs
+import RaftVerif.Model.Lifecycle
 set_option linter.unusedSimpArgs false
 set_option linter.unusedVariables false
 namespace Raft
@@ -141,5 +142,55 @@ theorem C14_apply_never_fatal (n : Node) (now : Nat) (hw : NodeWF n) (hc : n.com
     · obtain ⟨c, hcfg⟩ := Option.isSome_iff_exists.mp h2
       simp [h1, kNoop, kConfig, hcfg, hnf]
   · simp
+
+/-! ### `restore()` / `start` as the code runs them (Model/Lifecycle.lean, tied by E3-lifecycle) -/
+
+/-- **In-place restart without a snapshot keeps the applied and commit index**: the state
+    machine object survives Stop/Start, so the apply loop must go on after the last index it
+    handed over (C01: no instance sees an index twice). -/
+theorem C14_restore_keeps_applied (n : Node) (d : Node.Disk) (h : d.snap = none) :
+    (n.restore d).lastApplied = n.lastApplied ∧ (n.restore d).commitIndex = n.commitIndex ∧
+    (n.restore d).snapIndex = n.snapIndex := by
+  unfold Node.restore; rw [h]; simp
+
+/-- **With a snapshot the node restarts exactly at its label** (the state machine is rebuilt
+    from the snapshot, a new instance). -/
+theorem C14_restore_adopts_snapshot (n : Node) (d : Node.Disk) (i t : Nat) (c : Config) (h : d.snap = some (i, t, c)) :
+    (n.restore d).lastApplied = i ∧ (n.restore d).commitIndex = i ∧ (n.restore d).snapIndex = i ∧
+    (n.restore d).snapTerm = t := by
+  unfold Node.restore; rw [h]; simp
+
+/-- **Term, vote and log after a restart are exactly what the storages return.** -/
+theorem C14_restore_reads_disk (n : Node) (d : Node.Disk) :
+    (n.restore d).term = d.term ∧ (n.restore d).votedFor = d.vote ∧ (n.restore d).log = d.log := by
+  unfold Node.restore; cases d.snap with
+  | none => simp
+  | some x => obtain ⟨i, t, c⟩ := x; simp
+
+/-- **A started node is a well-formed follower** when the directory is (the recovered log is
+    well-formed, its base does not exceed the snapshot label) and the object was (in-place
+    restart) — or there is a snapshot. -/
+theorem C14_start_wf (n : Node) (now : Nat) (rf st : Bool) (d : Node.Disk) (hs : n.role = .shutdown)
+    (hw : d.log.WF) (hn : NodeWF n)
+    (hb : d.log.base ≤ (match d.snap with | some (i, _, _) => i | none => n.snapIndex))
+    (hr : (rf || st) = true) :
+    NodeWF (n.start now rf st d) ∧ (n.start now rf st d).role = .follower := by
+  unfold Node.start
+  rw [if_neg (by rw [hs]; simp)]
+  simp only [hr, if_true]
+  refine ⟨?_, trivial⟩
+  have hrd := C14_restore_reads_disk n d
+  cases hsn : d.snap with
+  | none =>
+    have hk := C14_restore_keeps_applied n d hsn
+    rw [hsn] at hb
+    exact ⟨by simp only; rw [hrd.2.2]; exact hw, by simp only; rw [hrd.2.2, hk.2.2]; exact hb,
+           by simp only; rw [hk.1, hk.2.2]; exact hn.snap_le_applied, by simp only; rw [hk.1, hk.2.1]; exact hn.applied_le_commit⟩
+  | some x =>
+    obtain ⟨i, t, c⟩ := x
+    have hk := C14_restore_adopts_snapshot n d i t c hsn
+    rw [hsn] at hb
+    exact ⟨by simp only; rw [hrd.2.2]; exact hw, by simp only; rw [hrd.2.2, hk.2.2.1]; exact hb,
+           by simp only; rw [hk.1, hk.2.2.1]; exact Nat.le_refl _, by simp only; rw [hk.1, hk.2.1]; exact Nat.le_refl _⟩
 
 end Raft
